@@ -36,6 +36,11 @@ const (
 	NumFaultKinds
 )
 
+// FaultForbidden (RBAC, an admission webhook) stands outside the enumerated
+// range: harnesses that draw "every kind" keep their size, those for which a
+// 403 is a case of its own name it.
+const FaultForbidden = 50
+
 // Crash is the sentinel panic raised by FaultCrash.
 type Crash struct{ AfterRequests int }
 
@@ -55,6 +60,8 @@ func MakeError(kind int, gr schema.GroupResource, name string) error {
 		return apierrors.NewInternalError(fmt.Errorf("injected internal error"))
 	case FaultTimeout:
 		return apierrors.NewTimeoutError("injected timeout", 1)
+	case FaultForbidden:
+		return apierrors.NewForbidden(gr, name, fmt.Errorf("injected forbidden"))
 	}
 	return nil
 }
